@@ -80,8 +80,8 @@ claim("C18", "E3", "model_checking",
       "substring search for tokens; the logger seam is the handlers' loggerProvider interface", "3/C18")
 claim("C16", "E1", "exploration",
       "bounded-exhaustive enumeration of load histories on one loader object with a differential oracle (fresh loader) and snapshot immutability",
-      "All sequences up to length 3 (4 thorough) over 13 YAML and 13 JSON documents that drop keys, shrink/reorder lists, remove options or fail to load are fed to one loader; each published value must deep-equal a fresh loader's, earlier published values must stay equal to their snapshots, failed loads must publish nothing, and the full server must behave as the last good document says; one path rewritten up to 3 (4) times over {document, same-length twin, other document, unparsable text} x {modification time moves on, pinned} and reloaded with Load(path) must publish what a fresh loader publishes for the file as it is.",
-      "documents outside the 13 shapes are not explored; the fsnotify watcher is represented by calling Unmarshal / Load(path) on the same object", "3/C16")
+      "All sequences up to length 3 (4 thorough) over 15 YAML and 15 JSON documents that drop keys, shrink/reorder lists, remove options, change only what a group grants (same group name, members' entries untouched) or fail to load are fed to one loader; each published value must deep-equal a fresh loader's, earlier published values must stay equal to their snapshots, failed loads must publish nothing, and the full server must behave as the last good document says (admission of two addresses, nine command authorizations incl. commands only the group grants); one path rewritten up to 3 (4) times over {document, same-length twin, other document, unparsable text} x {modification time moves on, pinned} and reloaded with Load(path) must publish what a fresh loader publishes for the file as it is.",
+      "documents outside the 15 shapes are not explored; the fsnotify watcher is represented by calling Unmarshal / Load(path) on the same object", "3/C16")
 claim("C09", "E3", "model_checking",
       "exhaustive enumeration of packet interleavings of session scripts (one connection, and two connections sharing a session id) with a differential oracle",
       "Every order-preserving interleaving of every ordered pair of 12 session scripts (and of sets of triples) is executed on the real reference server, multiplexed on one connection and spread over two connections that reuse the same session id; "
